@@ -80,12 +80,18 @@ func B5(files map[string][]byte, depB5 []string) string {
 // B4 is the legacy ("shake256:<hex>") module digest: SHAKE256 over the manifest of the module files together with
 // the v1 buf.yaml and buf.lock object data (when present) under those two names.
 func B4(files map[string][]byte, bufYAML, bufLock []byte) string {
+	return B4Named(files, "buf.yaml", bufYAML, bufLock)
+}
+
+// B4Named is B4 for a module whose v1 configuration file carries the given name (buf.yaml, or the legacy buf.mod):
+// the name is part of the manifest.
+func B4Named(files map[string][]byte, yamlName string, bufYAML, bufLock []byte) string {
 	all := map[string][]byte{}
 	for p, d := range ModuleFiles(files) {
 		all[p] = d
 	}
 	if bufYAML != nil {
-		all["buf.yaml"] = bufYAML
+		all[yamlName] = bufYAML
 	}
 	if bufLock != nil {
 		all["buf.lock"] = bufLock
